@@ -44,6 +44,14 @@ CTOR_FIELD_TYPES = {'BAnd': ['body', 'body'], 'BOr': ['body', 'body'], 'BIf': ['
 # BCall f args stands for Predicate(functor=Functor(name=Atom(value=f), args=args)); these shapes are checked in the source
 PRED_SHAPE = {'Predicate': ['functor'], 'Functor': ['name', 'args'], 'Atom': ['value']}
 
+# term AST class -> Gallina constructor of Lang/Ast.sterm
+TERM_CTOR = {'Atom': 'SAtom', 'NumeralTerm': 'SNum', 'VariableTerm': 'SVar', 'Functor': 'SFun', 'ListTerm': 'SList', 'ListPairTerm': 'SPair'}
+ALL_TCTORS = ['SAtom', 'SNum', 'SVar', 'SFun', 'SList', 'SPair']
+TCTOR_FIELD_TYPES = {'SAtom': ['str'], 'SNum': ['str'], 'SVar': ['str'], 'SFun': ['str', 'sterms'], 'SList': ['sterms'], 'SPair': ['sterm', 'sterm']}
+# subclasses that the front end model represents by the constructor of their base class (Lang/Ast.v: anonymous variables are SVar "x<k+1>");
+# an isinstance test against such a class cannot be decided on the Gallina side and is refused
+TERM_ALIAS = {'AnonymousVariableTerm': ('VariableTerm', 'varname')}
+
 # YPCode* class -> (Gallina constructor, argument types, result type)
 CODE_CTOR = {
     'YPCodeForeach': ('SForeach', ['expr', 'code'], 'stmt'),
@@ -64,11 +72,14 @@ TOP = {
     'has_local_cut': ('tcut_src', ['body'], [0], 'bool'),
     'localize_cuts': ('loc_src', ['body', 'label'], [1, 0], 'body'),
     'compile_body': ('comp_src', ['body'], [0], 'code'),
+    'compile_expression': ('compile_expression_src', ['sterm'], [0], 'expr'),
+    'compile_unification': ('compile_unification_src', ['str', 'sterm', 'code'], [0, 1, 2], 'code'),
 }
+NONRECURSIVE = {'compile_unification'}
 # methods that are referred to by name (hand-written Gallina, tied elsewhere)
-EXTERNAL_MAP_FUNS = {'compile_expression': 'compile_expression'}
+EXTERNAL_MAP_FUNS = {'compile_expression': 'compile_expression_src'}
 
-GTYPE = {'body': 'body', 'label': 'nat', 'bool': 'bool', 'code': 'list stmt'}
+GTYPE = {'body': 'body', 'label': 'nat', 'bool': 'bool', 'code': 'list stmt', 'sterm': 'sterm', 'expr': 'expr', 'str': 'str'}
 
 class Val:
     __slots__ = ('ty', 'tx', 'fields')
@@ -140,7 +151,7 @@ class Classes:
             if c not in self.bases:
                 raise TieError('class %s not found in the source' % c)
         # the classes we interpret (and their bases) are plain classes
-        rel = set(BODY_CTOR) | set(CODE_CTOR) | set(PRED_SHAPE)
+        rel = set(BODY_CTOR) | set(CODE_CTOR) | set(PRED_SHAPE) | set(TERM_CTOR) | set(TERM_ALIAS)
         for c in list(self.bases):
             if any(self.subclass(r, c) for r in rel if r in self.bases):
                 for f in self.node[c].body:
@@ -165,6 +176,20 @@ class Classes:
             got = sorted(i for i in self.fields.get(c, {}).values() if i is not None)
             if got != list(range(ar)):
                 raise TieError('%s does not store each constructor argument in one field' % c, self.node[c])
+        for c, g in TERM_CTOR.items():
+            if c not in self.bases:
+                raise TieError('class %s not found in the source' % c)
+            if c == 'Functor':
+                continue          # checked with PRED_SHAPE: Functor(name=Atom(value=f), args)
+            ar = len(TCTOR_FIELD_TYPES[g])
+            if len(self.params.get(c, [])) != ar or sorted(i for i in self.fields.get(c, {}).values() if i is not None) != list(range(ar)):
+                raise TieError('%s does not store each of its %d constructor arguments in one field' % (c, ar), self.node[c])
+        for c in self.bases:
+            for d in TERM_CTOR:
+                if c not in TERM_CTOR and self.subclass(c, d):
+                    if c in TERM_ALIAS and TERM_ALIAS[c][0] == d and TERM_ALIAS[c][1] in self.fields.get(c, {}):
+                        continue
+                    raise TieError('class %s is a subclass of %s but has no constructor in Lang/Ast.sterm' % (c, d), self.node[c])
         for c, want in CODE_CTOR_PARAMS.items():
             if c not in self.bases:
                 raise TieError('class %s not found in the source' % c)
@@ -178,6 +203,12 @@ class Classes:
         return [BODY_CTOR[c][0] for c in BODY_CTOR if self.subclass(c, cname)]
     def class_of_ctor(self, g):
         return [c for c in BODY_CTOR if BODY_CTOR[c][0] == g][0]
+    def tctors_of(self, cname, node):
+        if cname not in TERM_CTOR:
+            raise TieError('isinstance against %s: not a class of the term AST that has a constructor of its own' % cname, node)
+        return [TERM_CTOR[c] for c in TERM_CTOR if self.subclass(c, cname)]
+    def class_of_tctor(self, g):
+        return [c for c in TERM_CTOR if TERM_CTOR[c] == g][0]
 
 # ---------------------------------------------------------------- translator
 
@@ -294,6 +325,19 @@ class Translator:
                 cname = self.classes.class_of_ctor(ctor)
                 i = self.classes.field_index(cname, e.attr, e)
                 return Val(CTOR_FIELD_TYPES[ctor][i], fvars[i])
+            if base.ty == 'sterm':
+                sh = env.shapes.get(base.tx)
+                if sh is None:
+                    self.err('attribute .%s of a term whose class is not established by an enclosing isinstance test' % e.attr, e)
+                ctor, fvars = sh
+                if ctor == 'SFun':
+                    f, args = fvars
+                    fs = {'name': Val('atom', None, {'value': Val('str', f)}), 'args': Val('sterms', args)}
+                    if e.attr not in fs:
+                        self.err('attribute .%s of a Functor' % e.attr, e)
+                    return fs[e.attr]
+                i = self.classes.field_index(self.classes.class_of_tctor(ctor), e.attr, e)
+                return Val(TCTOR_FIELD_TYPES[ctor][i], fvars[i])
             if base.fields is not None and e.attr in base.fields:
                 return base.fields[e.attr]
             self.err('attribute .%s of a value of type %s' % (e.attr, base.ty), e)
@@ -328,8 +372,11 @@ class Translator:
                 self.err('list display with elements of types %s' % sorted(tys), e)
             return self.eval_list(e.elts, env, st, after)
         if isinstance(e, ast.BinOp) and isinstance(e.op, ast.Add):
-            return self.eval(e.left, env, st, lambda a, st2: self.eval(e.right, env, st2, lambda b, st3:
-                k(Val('code', '(%s ++ %s)' % (self.want(a, 'code', e.left), self.want(b, 'code', e.right))), st3)))
+            def plus(a, b, st3):
+                if a.ty == 'str' and b.ty == 'str':       # str = list of code points: concatenation
+                    return k(Val('str', '(%s ++ %s)' % (self.want(a, 'str', e.left), self.want(b, 'str', e.right))), st3)
+                return k(Val('code', '(%s ++ %s)' % (self.want(a, 'code', e.left), self.want(b, 'code', e.right))), st3)
+            return self.eval(e.left, env, st, lambda a, st2: self.eval(e.right, env, st2, lambda b, st3: plus(a, b, st3)))
         if isinstance(e, ast.BoolOp) and isinstance(e.op, ast.Or) and len(e.values) == 2:
             # `a or b` on booleans: b is evaluated only if a is false; both operands must be effect-free here
             if st is not None:
@@ -406,6 +453,7 @@ class Translator:
                 txs = [self.want(v, t, e) for v, t in zip(vs, ptys)]
                 return k(Val(rty, '(%s %s)' % (g, ' '.join(txs[i] for i in order))), st2)
             self.used.add(m)
+            self.used_in_current.add(m)
             return self.eval_list(e.args, env, st, after)
         if m == '_debug':
             self.err('_debug used as an expression', e)
@@ -439,8 +487,10 @@ class Translator:
     def cond(self, t, env, st, kt, kf):
         if (isinstance(t, ast.Call) and isinstance(t.func, ast.Name) and t.func.id == 'isinstance' and len(t.args) == 2 and not t.keywords):
             v = self.path(t.args[0], env)
-            if v.ty != 'body':
+            if v.ty not in ('body', 'sterm'):
                 self.err('isinstance on a value of type %s' % v.ty, t)
+            isterm = v.ty == 'sterm'
+            allc, ftypes = (ALL_TCTORS, TCTOR_FIELD_TYPES) if isterm else (ALL_CTORS, CTOR_FIELD_TYPES)
             cl = t.args[1]
             names = []
             for c in (cl.elts if isinstance(cl, ast.Tuple) else [cl]):
@@ -449,10 +499,10 @@ class Translator:
                 names.append(c.id)
             ctors = []
             for c in names:
-                for g in self.classes.ctors_of(c, t):
+                for g in (self.classes.tctors_of(c, t) if isterm else self.classes.ctors_of(c, t)):
                     if g not in ctors:
                         ctors.append(g)
-            ctors = [g for g in ALL_CTORS if g in ctors]
+            ctors = [g for g in allc if g in ctors]
             known = env.shapes.get(v.tx)
             if known is not None:      # the class of this object was established by an enclosing test
                 return kt(env, st) if known[0] in ctors else kf(env, st)
@@ -460,17 +510,24 @@ class Translator:
                 self.err('isinstance on a computed value', t)
             out = ['match %s with' % v.tx]
             for g in ctors:
-                fv = [self.fresh('x') for _ in CTOR_FIELD_TYPES[g]]
+                fv = [self.fresh('x') for _ in ftypes[g]]
                 out.append('| %s =>\n%s' % (' '.join([g] + fv), kt(env.know(v.tx, g, fv), st)))
             # the other constructors are listed one by one (no wildcard: Coq expands nested wildcard matches exponentially), and
             # the else-branch is translated once per constructor WITH the knowledge of the class, so that later tests on the
             # same object are decided statically: a chain of isinstance tests on one object becomes ONE match (first match wins)
-            for g in ALL_CTORS:
+            for g in allc:
                 if g not in ctors:
-                    fv = [self.fresh('x') for _ in CTOR_FIELD_TYPES[g]]
+                    fv = [self.fresh('x') for _ in ftypes[g]]
                     out.append('| %s =>\n%s' % (' '.join([g] + fv), kf(env.know(v.tx, g, fv), st)))
             out.append('end')
             return '\n'.join(out)
+        # <path> == []  on a list of terms
+        if (isinstance(t, ast.Compare) and len(t.ops) == 1 and isinstance(t.ops[0], ast.Eq) and isinstance(t.comparators[0], ast.List)
+                and not t.comparators[0].elts):
+            v = self.path(t.left, env)
+            if v.ty != 'sterms' or not v.tx.isidentifier():
+                self.err('== [] on a value of type %s' % v.ty, t)
+            return 'match %s with\n| [] =>\n%s\n| _ :: _ =>\n%s\nend' % (v.tx, kt(env, st), kf(env, st))
         # a boolean expression
         def after(v, st2):
             return 'if %s then\n%s\nelse\n%s' % (self.want(v, 'bool', t), kt(env, st2), kf(env, st2))
@@ -543,11 +600,12 @@ class Translator:
             raise TieError('%s takes parameters %s' % (pyname, ps), f)
         self.cur = pyname
         self.counter = 0
-        gnames = {'body': 'b', 'label': 'm'}
+        self.used_in_current = set()
+        gnames = {'body': 'b', 'label': 'm', 'sterm': 't', 'str': 'v', 'code': 'c'}
         gps = [gnames[t] + ('0' if False else '') for t in ptys]
         env = Env({p: Val(t, gp) for p, t, gp in zip(ps[1:], ptys, gps)})
         binders = ' '.join('(%s : %s)' % (gps[i], GTYPE[ptys[i]]) for i in order)
-        struct = gps[ptys.index('body')]
+        struct = gps[0]
         if pyname == 'compile_body':
             def top_ret(v, st):
                 return 'Some (%s, %s)' % (self.want(v, 'code', f), st)
@@ -564,7 +622,12 @@ class Translator:
             def fall(env2, st2):
                 raise TieError('%s can end without a return' % pyname, f, pyname)
             body = self.block(f.body, env, None, ret, fall)
-            text = 'Fixpoint %s %s {struct %s} : %s :=\n%s.' % (g, binders, struct, GTYPE[rty], body)
+            if pyname in NONRECURSIVE:
+                if pyname in self.used_in_current:
+                    raise TieError('%s is expected not to call itself' % pyname, f, pyname)
+                text = 'Definition %s %s : %s :=\n%s.' % (g, binders, GTYPE[rty], body)
+            else:
+                text = 'Fixpoint %s %s {struct %s} : %s :=\n%s.' % (g, binders, struct, GTYPE[rty], body)
         self.cur = None
         return indent(text)
 
@@ -594,7 +657,7 @@ Local Open Scope string_scope.
 Local Open Scope list_scope.
 '''
 
-ORDER = ['has_local_cut', 'localize_cuts', 'compile_body']
+ORDER = ['compile_expression', 'compile_unification', 'has_local_cut', 'localize_cuts', 'compile_body']
 
 def translate(repo):
     """returns (gallina text of the definitions, {python function: gallina name}); raises TieError"""
